@@ -229,6 +229,7 @@ def step (s : State) (line : String) : State × String :=
     (match Rule.ofName d, parseRules rs with
      | some d, some rs => let r := State.fresh s.cfg d rs; (r.1, renderAns (.ofExcept (fun _ => .unit) r.2))
      | _, _ => (s, "bad-op"))
+  | ["pokeid", n] => (s.setHdr (n.toNat?.getD 0), "ok")       -- the header counter set by hand (a header write): ids near a boundary
   | ["deleteu", ps] => let r := s.deleteUnchecked (unxList ps); (r.1, renderAns (.ofExcept (fun _ => .unit) r.2))
   | ["addruleram", a, r] =>
     (match Rule.ofName r with
